@@ -197,8 +197,8 @@ pub fn c14_checks() -> Vec<CheckDef> {
 pub fn c20_checks() -> Vec<CheckDef> {
     vec![prop_check(
         "restore-twin",
-        "generated histories (C03 distribution); at every customer step the state is encoded and decoded (twin) and both receive the same merchant reply (valid or faulty) and the same randomness; oracle: decoding succeeds, re-encoding is byte-identical, identical accept/refuse decision, byte-identical next state and outgoing message (start message nonce + proof, lock message); non-trivial = >=1 payment or a refused reply; distinct by (shape, refusals)",
-        &["twin/start", "twin/lock/accepted", "twin/unlock/accepted", "twin/complete/accepted"],
+        "generated histories (C03 distribution); at every customer step the state is encoded and decoded (twin) and both receive the same merchant reply (valid or faulty) and the same randomness; oracle: decoding succeeds, re-encoding is byte-identical, identical accept/refuse decision, byte-identical next state and outgoing message (start message nonce + proof, lock message); the randomness of a share of the steps is re-keyed until the revocation pair drawn in it has a high index (first k candidate digests non-canonical, k up to 12: naturally 0.4 % at k = 8), so stored states with every legitimate index occur; non-trivial = >=1 payment or a refused reply; distinct by (shape, refusals)",
+        &["twin/start", "twin/lock/accepted", "twin/unlock/accepted", "twin/complete/accepted", "revocation-index/initial-state/>=8", "revocation-index/payment-states(max)/>=8"],
         (48, 6000),
         c20_strategy,
         c20_oracle,
